@@ -260,6 +260,7 @@ AXIOMS = [
     ("xor.assoc", "xor", "iii", lambda a, b, c: xor(xor(a, b), c) == xor(a, xor(b, c))),
     ("xor.nilpotent", "xor", "i", lambda a: xor(a, a) == 0),
     ("xor.unit", "xor", "i", lambda a: xor(a, 0) == a),
+    ("xor.cancel", "xor", "ii", lambda a, b: IMP(xor(a, b) == 0, a == b)),
     ("xor.nonneg", "xor", "ii", lambda a, b: IMP(AND(a >= 0, b >= 0), xor(a, b) >= 0)),
     ("pmul.comm", "pmul", "pp", lambda a, b: IMP(AND(a >= 0, b >= 0), pmul(a, b) == pmul(b, a))),
     ("pmul.assoc", "pmul", "ppp", lambda a, b, c: IMP(AND(a >= 0, b >= 0, c >= 0), pmul(pmul(a, b), c) == pmul(a, pmul(b, c)))),
@@ -278,9 +279,11 @@ AXIOMS = [
     ("deg.pos", "deg", "i", lambda a: IMP(a > 0, deg(a) >= 0)),
     ("deg.cancel", "deg", "pp", lambda a, b: IMP(AND(a > 0, b > 0, deg(a) == deg(b)), deg(xor(a, b)) < deg(a))),
     ("deg.dominate", "deg", "pp", lambda a, b: IMP(AND(a > 0, b >= 0, deg(b) < deg(a)), deg(xor(a, b)) == deg(a))),
+    ("deg.xor_le", "deg", "pp", lambda a, b: IMP(AND(a >= 0, b >= 0), deg(xor(a, b)) <= IF(deg(a) >= deg(b), deg(a), deg(b)))),
     ("bor.disjoint", "bor", "ps", lambda a, s: IMP(AND(a >= 0, s >= 0, OR(a == 0, mindeg(a) > s)), bor(a, shl(1, s)) == xor(a, shl(1, s)))),
     ("mindeg.setlow", "bor", "ps", lambda a, s: IMP(AND(a >= 0, s >= 0, OR(a == 0, mindeg(a) > s)), mindeg(xor(a, shl(1, s))) == s)),
     ("pmod.unique", "pmod", "ppp", lambda q, m, r: IMP(AND(q >= 0, m > 0, r >= 0, deg(r) < deg(m)), pmod(xor(pmul(q, m), r), m) == r)),
+    ("pmod.small", "pmod", "pp", lambda a, m: IMP(AND(a >= 0, m > 0, deg(a) < deg(m)), pmod(a, m) == a)),
     ("pmod.reduced", "pmod", "pp", lambda a, m: IMP(AND(a >= 0, m > 0), AND(pmod(a, m) >= 0, deg(pmod(a, m)) < deg(m)))),
     # quotient ring GF(2)[x]/(M), deg M >= 1, on reduced representatives (lemma L-quot: a quotient of a commutative ring is one)
     ("fmul.def", "fmul", "Mpp", lambda M, a, b: IMP(AND(M > 1, a >= 0, b >= 0), fmul(M, a, b) == pmod(pmul(a, b), M))),
@@ -292,6 +295,10 @@ AXIOMS = [
     ("fpow.zero", "fpow", "Mp", lambda M, a: IMP(AND(M > 1, red(M, a)), fpow(M, a, 0) == 1)),
     ("fpow.succ", "fpow", "Mpn", lambda M, a, n: IMP(AND(M > 1, red(M, a), n > 0), fpow(M, a, n) == fmul(M, fpow(M, a, n - 1), a))),
     ("fpow.sqmul", "fpow", "Mpn", lambda M, a, n: IMP(AND(M > 1, red(M, a), n > 0), fpow(M, a, n) == fmul(M, IF(ODD(n), a, 1), fpow(M, fmul(M, a, a), DIV2(n))))),
+    ("fpow.one", "fpow", "Mn", lambda M, n: IMP(AND(M > 1, n >= 0), fpow(M, 1, n) == 1)),
+    # schemas: not given to the solver as they stand (non-linear / bad triggers); instantiated with concrete parameters
+    ("schema.deg_bound", "schema", "ps", lambda a, k: IMP(AND(a >= 0, k >= 0), (deg(a) < k) == (a < shl(1, k)))),
+    ("schema.fpow_add", "schema", "Mpnn", lambda M, a, n, k: IMP(AND(M > 1, red(M, a), n >= 0, k >= 0), fpow(M, a, n + k) == fmul(M, fpow(M, a, n), fpow(M, a, k)))),
     ("fpow.reduced", "fpow", "Mpn", lambda M, a, n: IMP(AND(M > 1, red(M, a), n >= 0), red(M, fpow(M, a, n)))),
 ]
 
@@ -310,7 +317,7 @@ def z3_axioms(groups=("xor", "pmul", "deg", "shl"), exclude=()):
         gs.update(GROUPS.get(g, [g]))
     out = []
     for name, grp, kinds, f in AXIOMS:
-        if grp not in gs or name in exclude:
+        if grp not in gs or name in exclude or grp == "schema":
             continue
         vs = [z3.Int(f"{name}!{i}") for i in range(len(kinds))]
         body = f(*vs)
@@ -318,11 +325,27 @@ def z3_axioms(groups=("xor", "pmul", "deg", "shl"), exclude=()):
     return out
 
 
+def schema_instance(name, fixed):
+    """instance of a schema axiom: positions in `fixed` (index -> concrete int) are substituted, the rest stay quantified"""
+    ent = next(e for e in AXIOMS if e[0] == name)
+    kinds, f = ent[2], ent[3]
+    vs, args = [], []
+    for i in range(len(kinds)):
+        if i in fixed:
+            args.append(int(fixed[i]))
+        else:
+            v = z3.Int(f"{name}!{i}")
+            vs.append(v)
+            args.append(v)
+    body = f(*args)
+    return z3.ForAll(vs, body) if vs else body
+
+
 _DOM = {"p": (0, 256), "i": (-4, 64), "s": (-2, 10), "n": (-1, 10), "M": (0, 32)}
 _DOM4 = {"p": (0, 32), "i": (-4, 32), "s": (-2, 8), "n": (-1, 8), "M": (0, 32)}
 
 
-def instance_tests():
+def instance_tests(group=None):
     """Evaluate every axiom on its exhaustive small domain.  Returns list of (name, ok, n_instances, detail)."""
     # validate the numpy implementation against vk.ground first (all pairs < 2^8)
     a = np.arange(256, dtype=np.int64)
@@ -334,6 +357,8 @@ def instance_tests():
     okd = all(int(np_deg(a)[i]) == G.pdeg(i) for i in range(256))
     out = [("numpy-kernel == vk.ground (pmul, pmod, deg; all pairs < 2^8)", ok and okm and okd, 3 * 65536, "")]
     for name, grp, kinds, f in AXIOMS:
+        if group is not None and grp != group:
+            continue
         dom = _DOM4 if len(kinds) >= 4 else _DOM
         if not kinds:
             r = bool(f())
